@@ -140,6 +140,11 @@ def mol_features(g):
             f.add('neg')
         if a[2] > 0:
             f.add('rad')
+            f.add('rad%d' % a[2])
+            if a[1] == 1 and a[2] == 1:
+                f.add('posrad')
+            if a[1] == -1 and a[2] == 1:
+                f.add('negrad')
         if a[3]:
             f.add('arom')
         if a[0] >= 20:
@@ -157,7 +162,7 @@ def mol_features(g):
 
 SYM_FEAT = {'C': 'Z6', 'O': 'Z8', 'N': 'Z7', 'H': 'Z1', 'Pt': 'Z78', 'S': 'Z16', 'P': 'Z15', 'Cl': 'Z17', 'Si': 'Z14', 'Ru': 'Z44',
             'M': 'metal', 'c': 'arom', 'n': 'arom', 'o': 'arom'}
-SUF_FEAT = {'+': 'pos', '-': 'neg', '.': 'rad', ':': 'rad', ':.': 'rad', '+.': 'pos', '-.': 'neg', '*': 'pos'}
+SUF_FEAT = {'+': 'pos', '-': 'neg', '.': 'rad1', ':': 'rad2', ':.': 'rad3', '+.': 'posrad', '-.': 'negrad', '*': 'pos'}
 BOND_FEAT = {'double': 'b_double', 'triple': 'b_triple', 'quadruple': 'b_quadruple', 'aromatic': 'b_aromatic', 'ring': 'ringbond',
              'strong': None, 'partial': None}
 
@@ -270,7 +275,12 @@ def classify(fc, ent, impl, oracle, capped):
     if isinstance(impl, tuple) or isinstance(oracle, tuple):
         return None
     if capped and len(impl) < len(oracle) and set(impl) <= set(oracle):
-        return 'F30'
+        # explained by the cap only if the pipeline ran on 10 000 candidates: at most (all candidates - embeddings) of those
+        # it kept can have been filtered out
+        n_all = len(ent['H'].GetSubstructMatches(fc.q.mol, uniquify=False, maxMatches=10 ** 7))
+        if len(impl) >= 10000 - (n_all - len(oracle)):
+            return 'F30'
+        return None
     if fc.star and impl == EM.embeddings(fc.frag, ent['g'], star=False, G=ent['G']):
         return 'FM1'
     return None
@@ -294,6 +304,10 @@ def check_pair(ctx, fc, ent, requests, selfcheck=True):
         count_constructs(ctx, fc.frag, 'hit')
     if raw:
         ctx.count('pairs_with_candidates')
+        if len(raw) >= 100:
+            ctx.count('pairs_with_100+_candidates')
+        if len(raw) >= 1000:
+            ctx.count('pairs_with_1000+_candidates')
     if selfcheck and ent['G'].n ** len(fc.q.atom_names) <= 4000:
         ctx.count('oracle_selfcheck_bruteforce')
         if EM.brute(fc.frag, ent['g']) != oracle:
@@ -420,6 +434,25 @@ def pick_mols(ctx, pool, fc, k):
     return res
 
 
+def run_fragment(ctx, pool, fc, k, requests, extra_tries=30):
+    """pairs of one fragment: k picked molecules, then (so that every construct is seen on a pair that has embeddings)
+    further molecules with the wanted features until one pair has embeddings"""
+    ents = pick_mols(ctx, pool, fc, k)
+    before = ctx.stats.get('pairs_with_embeddings', 0)
+    res = [check_pair(ctx, fc, ent, requests) for ent in ents]
+    if ctx.stats.get('pairs_with_embeddings', 0) == before:
+        wants = frag_wants(fc.frag)
+        good = [e for e in pool.entries if wants <= e['feats'] and e not in ents]
+        ctx.rng.shuffle(good)
+        for ent in good[:extra_tries]:
+            ctx.count('pairs_extra_for_reach')
+            res.append(check_pair(ctx, fc, ent, requests))
+            ents.append(ent)
+            if ctx.stats.get('pairs_with_embeddings', 0) != before:
+                break
+    return ents, res
+
+
 def merge_findings(ctx):
     """known_findings.json is assembled by the integrator (mkknown); until then read this property's own findings file"""
     p = os.path.join(common.VERIF, 'findings', 'C08.json')
@@ -450,9 +483,7 @@ def run(ctx):
     fcs, requests = [], []
     # 1. bounded-exhaustive small fragments x sampled molecules
     small = RG.small_fragments(ctx.thorough())
-    if not ctx.thorough() and not ctx.searching:
-        small = rng.sample(small, min(len(small), 1400))
-    per_small = ctx.n(12, 60)
+    per_small = ctx.n(10, 60)
     for frag in small:
         if ctx.time_left() < 120:
             ctx.count('stopped_early_time')
@@ -461,8 +492,7 @@ def run(ctx):
         fcs.append(fc)
         if not check_read(ctx, fc) or fc.read != 'ok':
             continue
-        for ent in pick_mols(ctx, pool, fc, per_small):
-            check_pair(ctx, fc, ent, requests)
+        run_fragment(ctx, pool, fc, per_small, requests)
     # 2. random grammar-directed fragments (1..8 atoms, random layout and labels) x sampled molecules
     per_rand = ctx.n(10, 40)
     for i in range(ctx.n(1800, 30000)):
@@ -474,8 +504,7 @@ def run(ctx):
         fcs.append(fc)
         if not check_read(ctx, fc) or fc.read != 'ok':
             continue
-        ents = pick_mols(ctx, pool, fc, per_rand)
-        res = [check_pair(ctx, fc, ent, requests) for ent in ents]
+        ents, res = run_fragment(ctx, pool, fc, per_rand, requests, extra_tries=6)
         # 3. layout / label independence on the implementation itself (relational clause of the property)
         if i % 4 == 0:
             g2 = RG.relabel(frag, rng)
@@ -500,6 +529,16 @@ def run(ctx):
         for fc in rng.sample(core, ctx.n(3, 8)):
             if fc.read == 'ok':
                 check_pair(ctx, fc, ent, requests, selfcheck=False)
+    # many-candidate cases: unconstrained chains and stars on the largest molecules (hundreds to thousands of candidates)
+    dense = [make_case(ctx, f, 'dense', layout=False) for f in dense_fragments()]
+    fcs += dense
+    big = sorted(pool.entries, key=lambda e: -e['G'].n)[:ctx.n(30, 120)]
+    for ent in big:
+        if ctx.time_left() < 100:
+            break
+        for fc in rng.sample(dense, ctx.n(2, 5)):
+            ctx.count('dense_pairs')
+            check_pair(ctx, fc, ent, requests, selfcheck=False)
     run_model(ctx, requests, fcs)
     reach_floor(ctx)
 
@@ -523,6 +562,19 @@ def core_fragments():
     ]
 
 
+def dense_fragments():
+    A = lambda label, bond, sym='$', suffix='?': ('atom', dict(prefix=None, sym=sym, suffix=suffix, label=label, chain=[], bond=bond))
+    F = lambda items: {'molprefix': [], 'name': 'd', 'items': items}
+    return [
+        F([A('a', None), A('b', ('any', 'a')), A('c', ('any', 'b')), A('d', ('any', 'c'))]),
+        F([A('a', None), A('b', ('any', 'a')), A('c', ('any', 'a')), A('d', ('any', 'a'))]),
+        F([A('a', None, 'X'), A('b', ('single', 'a')), A('c', ('single', 'b')), A('d', ('single', 'c'), 'H', None), A('e', ('single', 'a'), 'H', None)]),
+        F([A('a', None, 'C', None), A('b', ('any', 'a')), A('c', ('any', 'a')), A('d', ('any', 'a')), A('e', ('any', 'a'))]),
+        F([A('a', None), A('b', ('any', 'a')), A('c', ('any', 'b'))]),
+        F([A('a', None, 'X'), A('b', ('nonring', 'a')), A('c', ('any', 'b')), A('d', ('any', 'c')), A('e', ('any', 'd'))]),
+    ]
+
+
 REACH = (['hit_suffix_' + s for s in ['none', '+', '-', '.', ':', '+.', '-.', '?', ':.']] +
          ['hit_prefix_' + p for p in RG.ATOM_PREFIX] +
          ['hit_bond_' + b for b in RG.BONDS] +
@@ -534,7 +586,7 @@ REACH = (['hit_suffix_' + s for s in ['none', '+', '-', '.', ':', '+.', '-.', '?
 
 def reach_floor(ctx):
     """generator rot is a machinery failure: every construct must occur in at least one pair that has embeddings"""
-    if ctx.stats.get('stopped_early_time'):
+    if ctx.stats.get('stopped_early_time') or ctx.violations or ctx.disagreements or ctx.broken:
         return
     missing = [k for k in REACH if not ctx.stats.get(k)]
     ctx.extra.setdefault('coverage', {})['reach_missing'] = missing
